@@ -33,6 +33,7 @@ type c05Case struct {
 	File    string   `json:"file"`
 	Args    []string `json:"args"`
 	Global  []string `json:"global_args"`
+	CfgName string   `json:"config_file_name,omitempty"` // "" = pint.hcl
 }
 
 func c05Config(r *hx.Run) string {
@@ -84,9 +85,13 @@ func c05Eval(r *hx.Run, cs c05Case) {
 	}
 	args := []string{"--offline", "-l", "error", "--no-color"}
 	args = append(args, cs.Global...)
+	cfgName := "pint.hcl"
+	if cs.CfgName != "" {
+		cfgName = cs.CfgName
+	}
 	if cs.Config != "" {
-		must(os.WriteFile(filepath.Join(dir, "pint.hcl"), []byte(cs.Config), 0o644))
-		args = append(args, "-c", "pint.hcl")
+		must(os.WriteFile(filepath.Join(dir, cfgName), []byte(cs.Config), 0o644))
+		args = append(args, "-c", cfgName)
 	}
 	jsonPath := filepath.Join(dir, "out.json")
 	if cs.Command == "lint" {
@@ -112,6 +117,27 @@ func c05Eval(r *hx.Run, cs c05Case) {
 		args = append(args, cs.Args...)
 	}
 	res := hx.RunCmd(dir, 60*time.Second, []string{"GIT_CONFIG_GLOBAL=/dev/null"}, hx.PintBin(), args...)
+	if cs.Command == "ci" {
+		// every rule file of the repository was added on the branch, so `pint lint` over the same files sees the same
+		// problems: the two commands must agree on whether the run fails
+		largs := []string{"--offline", "-l", "error", "--no-color"}
+		largs = append(largs, cs.Global...)
+		if cs.Config != "" {
+			largs = append(largs, "-c", cfgName)
+		}
+		largs = append(largs, "lint", "--min-severity", "info")
+		for i, a := range cs.Args {
+			if a == "--fail-on" && i+1 < len(cs.Args) {
+				largs = append(largs, "--fail-on", cs.Args[i+1])
+			}
+		}
+		largs = append(largs, "rules")
+		lres := hx.RunCmd(dir, 60*time.Second, []string{"GIT_CONFIG_GLOBAL=/dev/null"}, hx.PintBin(), largs...)
+		if lres.Exit >= 0 && res.Exit >= 0 && !lres.TimedOut && !res.TimedOut && (lres.Exit != 0) != (res.Exit != 0) {
+			r.Violate(hx.Violation{Class: "ci-vs-lint-exit", Input: cs, Observed: map[string]any{"ci_exit": res.Exit, "lint_exit": lres.Exit, "ci_stderr": tail(res.Stderr, 600), "lint_stderr": tail(lres.Stderr, 600)},
+				Expected: "the same verdict from `pint ci` and `pint lint` when every rule file is new on the branch"})
+		}
+	}
 	var reports []c05JSON
 	b, rerr := os.ReadFile(jsonPath)
 	if rerr == nil {
@@ -212,6 +238,24 @@ func runC05(r *hx.Run, replay string) {
 		return
 	}
 	rr := r.Rng
+	// files that fail at the file level in one or two ways, through `pint ci` (compared with `pint lint`)
+	okFile := "groups:\n- name: g\n  rules:\n  - record: a:b\n    expr: up\n"
+	for _, f := range []string{
+		"# pint file/owner\n" + okFile + "  - record: [\n",
+		"# pint file/snooze xx\n" + okFile + "groups: {\n",
+		okFile + "\tbad: yaml\n",
+		"# pint file/owner\n" + okFile,
+		"# pint file/owner\n# pint file/snooze xx\n" + okFile + "  - [\n",
+	} {
+		for _, fo := range []string{"fatal", "bug"} {
+			c05Eval(r, c05Case{Command: "ci", Config: "", File: f, Args: []string{"--fail-on", fo}})
+		}
+	}
+	// a configuration file whose name is not a regular expression: the verdict is the one for the same file under an
+	// ordinary name (and there is one)
+	for _, name := range []string{"pint(ci.hcl", "a[b.hcl", "c+d*.hcl", "p?{2,1}.hcl"} {
+		c05Eval(r, c05Case{Command: "lint", Config: "parser {\n  relaxed = []\n}\n", File: okFile, Args: []string{"--fail-on", "bug"}, CfgName: name})
+	}
 	// severity parse table through the real binary: every spelling of --fail-on
 	for i := 0; i < r.N; i++ {
 		groups := gen.RandGroups(rr, 2, 3)
@@ -240,6 +284,10 @@ func runC05(r *hx.Run, replay string) {
 			c05Eval(r, c05Case{Command: "lint", Config: cfg, File: file, Args: args, Global: global})
 		}
 		if i%4 == 0 {
+			if rr.Intn(3) == 0 {
+				// files that fail at the file level, possibly in more than one way
+				file = hx.Pick(rr, []string{"# pint file/owner\n", "# pint file/snooze xx\n", ""}) + file + hx.Pick(rr, []string{"  - record: [\n", "\tbad: yaml\n", "groups: {\n", "# pint file/disable\n"})
+			}
 			fo := hx.Pick(rr, c05Sev)
 			ciArgs := []string{"--fail-on", fo}
 			switch rr.Intn(3) {
